@@ -1,4 +1,4 @@
-import Adlt.Ft.Model
+import Adlt.Ft.AutoSave
 import Adlt.Util.Parse
 /-! glue. case: `<serial>,<nr>,<buf>,<last>,<label> … | S serial size nr buf;D serial pkg len fill;F serial;O …`
     (label: 0 = no fault, 1 = duplicates only, 2 = damaging fault (drop/swap/resize/renumber a data package), 3 = other)
@@ -70,12 +70,32 @@ def oracle (metas : List Meta) (obs : List TObs) : String :=
   | [] => "C17=ok"
   | e :: _ => "C17=" ++ e
 
+/-- the announced name of a generated transfer (same table as the harness) -/
+def nameOfSerial (serial : Nat) : String :=
+  let n := 99 - (serial % 100)
+  match serial % 8 with
+  | 0 => s!"/abs/g{n}.bin" | 1 => s!"../up{n}.bin" | 2 => s!"dir/f{n}.bin" | 3 => "plain.bin"
+  | 4 => s!"a/../../b{n}.txt" | 5 => "dir/.." | 6 => "x/same.bin" | _ => "y/z/same.bin"
+
+def nameOfFt (t : Ft) : Name := if t.nrPackages.isNone then "<missing_flst>".toList else (nameOfSerial t.serial).toList
+
+def globOf (g : String) : Name → Bool :=
+  if g == "*" then fun _ => true else fun n => (String.ofList n).endsWith ".bin"
+
+def oldFile : Saved := { files := [("plain.bin".toList, [111, 108, 100])] }
+
+def showSaved (s : Saved) : String :=
+  let l := s.files.map fun (n, d) => s!"{hexOf (String.ofList n).toUTF8.toList}:{d.length}:{hashOf d}"
+  "A:" ++ "+".intercalate ((l.toArray.qsort (fun a b => decide (a < b))).toList) ++ " X:0"
+
 def doLine (line : String) : String :=
   let (cs, impl) := match line.splitOn "\t" with
     | [c, i] => (c, i)
     | [c] => (c, "")
     | _ => ("", "")
-  match cs.splitOn " | " with
+  let parts := cs.splitOn " | "
+  let glob : Option String := (parts.getD 2 "").trimAscii.toString |> fun g => if g == "" then none else some g
+  match parts.take 2 with
   | [ms, evs] =>
     let metas := (fields ms " ").filterMap parseMeta
     let evs := (fields evs ";").filterMap parseEv
@@ -83,14 +103,24 @@ def doLine (line : String) : String :=
     let mo := p.transfers.map fun t =>
       let d := if t.state == .complete then t.data else []
       s!"{t.serial}:{showSt t.state}:{d.length}:{if t.state == .complete && !d.isEmpty then hashOf d else 0}"
-    let mobs := " ".intercalate mo
-    let orc (o : String) : String := if o == "PANIC" then "C17=FAIL:panic" else oracle metas ((fields o " ").filterMap parseTObs)
+    let auto := glob.map fun g => showSaved (runAuto (globOf g) nameOfFt evs oldFile).2
+    let mobs := " ".intercalate mo ++ (match auto with | some a => " # " ++ a | none => "")
+    let orc (o : String) : String :=
+      if o == "PANIC" then "C17=FAIL:panic" else
+      let main := ((o.splitOn " # ").headD "")
+      let a := ((o.splitOn " # ").getD 1 "")
+      let r := oracle metas ((fields main " ").filterMap parseTObs)
+      if r != "C17=ok" || glob.isNone then r
+      else if !(a.endsWith " X:0") then "C17=FAIL:auto-save-wrote-outside-the-configured-directory"
+      else if !((fields ((a.drop 2).toString.splitOn " X:" |>.headD "") "+").contains s!"{hexOf "plain.bin".toUTF8.toList}:3:{hashOf [111, 108, 100]}") then "C17=FAIL:auto-save-overwrote-or-removed-an-existing-file"
+      else r
     let tags : List String :=
       (if p.transfers.any (·.state == .complete) then ["complete"] else []) ++
       (if p.transfers.any (·.state == .incomplete) then ["incomplete"] else []) ++
       (if p.transfers.any (·.state == .missingStart) then ["missing-flst"] else []) ++
       (if metas.any (·.label == 1) then ["duplicates"] else []) ++ (if metas.any (·.label == 2) then ["damaging-fault"] else []) ++
-      (if metas.length > 1 then ["concurrent"] else [])
+      (if metas.length > 1 then ["concurrent"] else []) ++
+      (match auto with | some a => (if (a.splitOn "+").length > 1 then ["auto-saved"] else ["auto-save-nothing"]) | none => [])
     s!"{mobs}\t{if impl == "" then "-" else orc impl}\t{orc mobs}\t{",".intercalate tags}"
   | _ => "bad\tC17=FAIL:unparsable\tC17=FAIL:unparsable\t"
 
